@@ -1,5 +1,6 @@
 import NrDaemon.Lemmas.Metrics
 import NrDaemon.Model.Rules
+import NrDaemon.Props.Tied
 /-!
   C07 — metric aggregation is order-independent and rename rules are applied faithfully.
 
@@ -271,3 +272,9 @@ example : applyRules [{ order := 1, eachSegment := true, terminate := true, lit 
                       { order := 2, lit := ['x'], repl := ['y'] }] "a/b".toList = (.matched, "x/b".toList) := by decide
 example : applyRules [{ order := 2, replaceAll := true, lit := ['a'], repl := ['a', 'a'] },
                       { order := 1, anchor := .pre, lit := ['b'], repl := [] }] "baca".toList = (.matched, "aacaa".toList) := by decide
+
+/-- **C07 (tie: field-wise aggregation is the code's).**  `MData.agg` equals `metricData.aggregate` as translated from
+metrics.go on this run, for all pairs of values (so the commutativity / associativity / permutation theorems above are about
+the function the daemon runs). -/
+theorem C07_aggregate_tied (d s : MData) : Gen.Decisions.aggregate d.toGen s.toGen = (d.agg s).toGen :=
+  tied_aggregate d s
